@@ -138,8 +138,13 @@ def _weave_states_in_region(
                     if_state = _weave_states_in_region(op.true_region, state.copy(), rewriter)
                     else_state = _weave_states_in_region(op.false_region, state.copy(), rewriter)
 
+                    # states that got invalidated in at least one of the branches are unknown after the if:
+                    invalidated = [accel for accel in state if accel not in if_state or accel not in else_state]
+
                     # calculate the delta:
                     delta = calc_if_state_delta(state, if_state, else_state)
+                    for accel in invalidated:
+                        del state[accel]
                     # no delta = nothing to do
                     if not delta:
                         continue
@@ -187,6 +192,9 @@ def _weave_states_in_region(
                     # check which states got new uses:
                     # no state change in loop => nothing to do
                     if not updated_accelerators:
+                        # unless something in the loop may change the accelerator state behind our back
+                        if has_accfg_effects(op):
+                            state.clear()
                         continue
 
                     # insert empty setup ops for all setups that don't have a state before the loop
@@ -234,6 +242,11 @@ def _weave_states_in_region(
                     for arg in created_block_args:
                         assert isinstance(arg.type, accfg.StateType)
                         acc_name = arg.type.accelerator.data
+                        # if the state got invalidated inside the loop body, yield an empty (unknown) state
+                        if acc_name not in after_for_state:
+                            empty_setup = accfg.SetupOp([], [], acc_name)
+                            rewriter.insert_op(empty_setup, InsertPoint.before(yield_op))
+                            after_for_state[acc_name] = empty_setup.out_state
                         # extend the yield op to yield the state variable
                         yield_op.operands = (
                             *yield_op.operands,
@@ -243,6 +256,13 @@ def _weave_states_in_region(
                         new_result = OpResult(arg.type, op, len(op.results))
                         op.results = SSAValues((*op.results, new_result))
 
+                    # accelerators that are not set up in the loop lose their state
+                    # if something in the loop may change it behind our back
+                    if has_accfg_effects(op):
+                        for acc_name in tuple(state):
+                            if acc_name not in updated_accelerators:
+                                del state[acc_name]
+
                     # update states
                     for result in op.results:
                         if isinstance(result.type, accfg.StateType):
@@ -251,6 +271,8 @@ def _weave_states_in_region(
                 # any other op that contains ops:
                 elif op.regions:
                     _weave_states_in_region(op, dict(), rewriter)
+                    if has_accfg_effects(op):
+                        state.clear()
                 # Check if the op has effects on accfg state
                 elif has_accfg_effects(op):
                     state.clear()
